@@ -49,6 +49,40 @@ func (r *AnthropicRequest) Validate() error {
 		return fmt.Errorf("top_k must be non-negative, got %d", *r.TopK)
 	}
 
+	// Polymorphic fields are decoded into interface{}, so a value of the wrong JSON type
+	// would otherwise be accepted and then silently dropped or defaulted during translation
+	switch system := r.System.(type) {
+	case nil, string, []ContentBlock, *[]ContentBlock:
+	case []interface{}:
+		for i, block := range system {
+			if _, isObject := block.(map[string]interface{}); !isObject {
+				return fmt.Errorf("system[%d] must be a content block object", i)
+			}
+		}
+	default:
+		return fmt.Errorf("system must be a string or an array of content blocks")
+	}
+	switch choice := r.ToolChoice.(type) {
+	case nil, string:
+	case map[string]interface{}:
+		if _, isString := choice["type"].(string); !isString {
+			return fmt.Errorf("tool_choice.type must be a string")
+		}
+	default:
+		return fmt.Errorf("tool_choice must be a string or an object")
+	}
+	for i, msg := range r.Messages {
+		blocks, ok := msg.Content.([]interface{})
+		if !ok {
+			continue
+		}
+		for j, block := range blocks {
+			if _, isObject := block.(map[string]interface{}); !isObject {
+				return fmt.Errorf("messages[%d].content[%d] must be a content block object", i, j)
+			}
+		}
+	}
+
 	return nil
 }
 
